@@ -397,8 +397,12 @@ func (i *interpreter) writeCell(addr *value, v value) {
 		}
 		if ps.frozenOn {
 			if what, ok := ps.frozen[addr]; ok {
-				i.res.FrozenWrites[what+" @ "+i.curPosString()]++
-				i.frozenHit(addr, v, what)
+				if i.lockDepth > 0 && strings.HasPrefix(what, "package-level ") {
+					i.res.FrozenWrites["(synchronised, not counted) "+what+" @ "+i.curPosString()]++
+				} else {
+					i.res.FrozenWrites[what+" @ "+i.curPosString()]++
+					i.frozenHit(addr, v, what)
+				}
 			}
 		}
 	}
@@ -683,6 +687,7 @@ func (i *interpreter) runPath(fn *ssa.Function, prefix []decision) {
 	ps := &pathState{decisions: prefix, frozen: map[*value]string{}}
 	i.ps = ps
 	i.onceDone = nil
+	i.lockDepth = 0
 	i.frozenCount = 0
 	if !i.concreteMode {
 		i.sol.Push()
